@@ -183,7 +183,8 @@ _handle_error(xmpp_conn_t *conn, xmpp_stanza_t *stanza, void *userdata)
                     conn->stream_error->type = XMPP_SE_UNSUPPORTED_STANZA_TYPE;
                 else if (strcmp(name, "unsupported-version") == 0)
                     conn->stream_error->type = XMPP_SE_UNSUPPORTED_VERSION;
-                else if (strcmp(name, "xml-not-well-formed") == 0)
+                else if (strcmp(name, "xml-not-well-formed") == 0 ||
+                         strcmp(name, "not-well-formed") == 0)
                     conn->stream_error->type = XMPP_SE_XML_NOT_WELL_FORMED;
             }
         }
